@@ -61,6 +61,45 @@ Definition recognised_by (t now : Z) (s : st) (h : str) : list N :=
 Lemma recognisers_spec t now s h : recognisers t now s h = recognised_by t now s h.
 Proof. apply scan_users_ids. Qed.
 
+(* The recomputation (the `except KeyError:` body) answers id only if id is the
+   one and only account recognising h (own mask or live login) ... *)
+Lemma miss_sound t now s h id :
+  snd (lookup_miss t now s h) = Ok id -> recognised_by t now s h = [id].
+Proof.
+  unfold lookup_miss, recognised_by. rewrite <- scan_users_ids.
+  destruct (scan_users t now h (s_users s)) as [us ids]. cbn [snd].
+  destruct ids as [|[j x] [|e r]].
+  - discriminate.
+  - cbn [snd]. intro H. inversion H; subst. reflexivity.
+  - destruct (remove_offending us ((j, x) :: e :: r)). discriminate.
+Qed.
+
+(* ... and it does answer id then *)
+Lemma miss_complete t now s h id :
+  recognised_by t now s h = [id] -> snd (lookup_miss t now s h) = Ok id.
+Proof.
+  unfold lookup_miss, recognised_by. rewrite <- scan_users_ids.
+  destruct (scan_users t now h (s_users s)) as [us ids]. cbn [snd].
+  destruct ids as [|[j x] [|e r]]; cbn [map fst]; intro H; inversion H. reflexivity.
+Qed.
+
+Lemma miss_ambiguous t now s h :
+  (1 < length (recognised_by t now s h))%nat -> exists e, snd (lookup_miss t now s h) = Raise e.
+Proof.
+  unfold lookup_miss, recognised_by. rewrite <- scan_users_ids.
+  destruct (scan_users t now h (s_users s)) as [us ids]. cbn [snd].
+  intro Hlen. destruct ids as [|[j x] [|e r]]; cbn [map length] in Hlen; try lia.
+  destruct (remove_offending us ((j, x) :: e :: r)) as [us' ex]. eexists. reflexivity.
+Qed.
+
+Lemma miss_unknown t now s h :
+  recognised_by t now s h = [] -> snd (lookup_miss t now s h) = Raise KeyError.
+Proof.
+  unfold lookup_miss, recognised_by. rewrite <- scan_users_ids.
+  destruct (scan_users t now h (s_users s)) as [us ids]. cbn [snd].
+  destruct ids; [reflexivity|discriminate].
+Qed.
+
 (* A lookup that misses the cache answers id only if id is the one and only
    account recognising h (own mask or live login): never two accounts. *)
 Theorem lookup_sound_miss t now s h s' id :
@@ -68,13 +107,7 @@ Theorem lookup_sound_miss t now s h s' id :
   getUserId t now s h = (s', Ok id) ->
   recognised_by t now s h = [id].
 Proof.
-  intros Hmiss H. unfold getUserId in H. rewrite Hmiss in H.
-  unfold recognised_by. rewrite <- scan_users_ids.
-  destruct (scan_users t now h (s_users s)) as [us ids]. cbn [snd].
-  destruct ids as [|[j x] [|e r]].
-  - inversion H.
-  - inversion H; subst. reflexivity.
-  - destruct (remove_offending us ((j, x) :: e :: r)). inversion H.
+  intros Hmiss H. unfold getUserId in H. rewrite Hmiss in H. apply miss_sound. rewrite H. reflexivity.
 Qed.
 
 (* and it raises rather than answer when several accounts recognise h *)
@@ -83,11 +116,7 @@ Theorem lookup_ambiguous_raises t now s h :
   (1 < length (recognised_by t now s h))%nat ->
   exists e, snd (getUserId t now s h) = Raise e.
 Proof.
-  intros Hmiss Hlen. unfold getUserId. rewrite Hmiss.
-  unfold recognised_by in Hlen. rewrite <- scan_users_ids in Hlen.
-  destruct (scan_users t now h (s_users s)) as [us ids]. cbn [snd] in Hlen.
-  destruct ids as [|[j x] [|e r]]; cbn in Hlen; try lia.
-  destruct (remove_offending us ((j, x) :: e :: r)) as [us' ex]. eexists. reflexivity.
+  intros Hmiss Hlen. unfold getUserId. rewrite Hmiss. apply miss_ambiguous. exact Hlen.
 Qed.
 
 (* nobody recognises h -> KeyError *)
@@ -95,10 +124,7 @@ Theorem lookup_unknown t now s h :
   dict_get h (s_hcache s) = None -> recognised_by t now s h = [] ->
   snd (getUserId t now s h) = Raise KeyError.
 Proof.
-  intros Hmiss Hr. unfold getUserId. rewrite Hmiss.
-  unfold recognised_by in Hr. rewrite <- scan_users_ids in Hr.
-  destruct (scan_users t now h (s_users s)) as [us ids]. cbn [snd] in Hr.
-  destruct ids; [reflexivity|discriminate].
+  intros Hmiss Hr. unfold getUserId. rewrite Hmiss. apply miss_unknown. exact Hr.
 Qed.
 
 (* a secure account accepts a login only from a hostmask matching one of its masks *)
